@@ -156,7 +156,7 @@ package auth
 //@   loop 1 invariant {C14} [valid-so-far] forall j int :: 0 <= j && j <= rangeindex ==> bp.Statement[j].Validate(bucket, iam) == nil
 //@ func (BucketPolicyAccessType) Validate
 //@   pure
-//@   ensures {C14} [allow-or-deny] err == nil <==> (bpat == BucketPolicyAccessTypeAllow || bpat == BucketPolicyAccessTypeDeny)
+//@   ensures {C14,C03} [allow-or-deny] err == nil <==> (bpat == BucketPolicyAccessTypeAllow || bpat == BucketPolicyAccessTypeDeny)
 // A principal set is accepted only if it is exactly {"*"}, or names no wildcard and every named account was looked up
 // and exists.
 //@ func (Principals) Validate
